@@ -32,6 +32,8 @@ def programs(quick, seed):
     P['rsiblings'] = progs.Program('rsiblings', [G('Home', [L('City', 'string', tag='city')], tag='home'), G('Work', [L('Title', 'string', tag='title'), L('Salary', 'float64', 'opt', tag='salary')], 'opt', tag='work'),
                                                  L('Age', 'int32', tag='age'), L('Note', 'string', 'opt', tag='note')])
     P['rsiblings2'] = progs.Program('rsiblings2', [G('Outer', [G('Ga', [L('X', 'int32', tag='x')], tag='ga'), G('Gb', [L('Y', 'int64', 'opt', tag='y')], 'opt', tag='gb'), L('Z', 'bool', tag='z')], 'opt', tag='outer'), L('Tail', 'string', tag='tail')])
+    # column and group names that start with an underscore (strings.Title leaves them as they are)
+    P['runderscore'] = progs.Program('runderscore', [L('Id', 'int64', tag='_id'), G('Meta', [L('Rev', 'int32', tag='rev'), L('Who', 'string', 'opt', tag='_who')], 'opt', tag='_meta'), L('Tail', 'string', tag='tail')])
     return P
 
 
@@ -120,6 +122,11 @@ def main(tier, replay):
         types = progs.parse_struct_file(srcs['1'])
         if 'Rec' not in types:
             struct_viol.append((n, 'regenerated file has no Rec struct'))
+            continue
+        # a member or type the Go language does not export is ignored by the generator: its column would not be read back
+        unexp = sorted({m for m in re.findall(r'^\s*(?:type\s+)?([^\s`]+)\s+(?:struct\s*\{|[\*\[\]\w]+\s*`parquet:)', srcs['1'], re.M) if not (m[0].isalpha() and m[0].isupper())})
+        if unexp:
+            struct_viol.append((n, 'regenerated struct has members or types that Go does not export (their columns are not read back): ' + ', '.join(unexp)))
             continue
         try:
             rp = progs.program_from_types(rn, types)
